@@ -90,7 +90,11 @@ TopSets(E, k, NotWorse(_, _)) ==
 Ranks(X, Before(_, _)) ==
   LET n == Cardinality(X) IN
   {r \in [X -> 0..(n - 1)] : (\A a, b \in X : a # b => r[a] # r[b]) /\ (\A a, b \in X : Before(a, b) => r[a] < r[b])}
-Rrf(rank) == S \div (60 + rank)
+\* reciprocal rank with the configured constant c (ranks are 0-based; c = 0 makes the first rank infinite: the
+\* harness renders +Inf as InfTok)
+InfTok == 2000000000
+InfSum(a, b) == IF a = InfTok \/ b = InfTok THEN InfTok ELSE a + b     \* TLC integers are 32 bits
+Rrf(c, rank) == IF c + rank = 0 THEN InfTok ELSE S \div (c + rank)
 
 \* res: sequence of <<id, score>>; valid for score map sc over key set K: descending, truncated to k
 ValidFinal(res, K, sc(_), k, tol) ==
@@ -100,7 +104,7 @@ ValidFinal(res, K, sc(_), k, tol) ==
   /\ \A i \in 1..(n - 1) : res[i][2] >= res[i + 1][2] - tol
   /\ (n > 0 => \A d \in K \ ids : sc(d) <= res[n][2] + 2 * tol)
 
-\* e: [qpos (-1 = none), qtoks (<<>> = none), groups, hasFilter, k >= 1, fusion, wv, wt (halves)]
+\* e: [qpos (-1 = none), qtoks (<<>> = none), groups, hasFilter, k >= 1, fusion, wv, wt (halves), rrk (reciprocal-rank constant)]
 \* "error" results are decided by SearchFails
 SearchFails(e) == \/ (e.qpos # -1 /\ ~cfg.v) \/ (e.qtoks # <<>> /\ ~cfg.t) \/ (e.hasFilter /\ ~cfg.m)
 
@@ -124,7 +128,7 @@ ValidSearch(e, res) ==
                        ELSE CASE e.fusion = "weighted_sum" ->
                                    (IF d \in SV THEN (e.wv * vd(d)) \div 2 ELSE 0) + (IF d \in ST THEN (e.wt * ts(d)) \div 2 ELSE 0)
                               [] e.fusion = "reciprocal_rank" ->
-                                   (IF d \in SV THEN Rrf(rv[d]) ELSE 0) + (IF d \in ST THEN Rrf(rt[d]) ELSE 0)
+                                   InfSum(IF d \in SV THEN Rrf(e.rrk, rv[d]) ELSE 0, IF d \in ST THEN Rrf(e.rrk, rt[d]) ELSE 0)
                               [] e.fusion = "max" ->
                                    IF d \in SV /\ d \in ST THEN Max2(vd(d), ts(d)) ELSE IF d \in SV THEN vd(d) ELSE ts(d)
                               [] e.fusion = "min" -> Min2(vd(d), ts(d))
